@@ -67,7 +67,7 @@ def wrappers(rep):
             o.stats["traces_validated"] = 1
             o.detail += "; replayed natively: " + det
         else:
-            o.verdict = "inconclusive"
+            # left unconfirmed so that the report's battery (if any) can still confirm it
             o.detail += "; native fault plans: " + str(det)
     try:
         C05_e2.add(rep, oblig.Ctx(), replayer)
